@@ -3,6 +3,8 @@
    and per item what the code did: result class, virtual time spent in submitToDA, the DA calls made (blob
    heights as decoded from the blobs, in-memory and persisted watermark at call time), both watermarks after
    the item; at the end the heights the DA double accepted, in order, and the chain height.
+   A stretch of n blocks of one kind committed in a row is one run-length item (Model.Submitter.HPublishN),
+   expanded here into n IPublish items; long height lists are written as runs ([runs]).
    [mismatches] lists the cases on which the model disagrees. *)
 From Coq Require Import NArith List Bool.
 From Verif Require Import Model.Submitter.
